@@ -255,3 +255,8 @@ def run(S):
     rule_ordl(S, la)
     rule_nsw(S, la)
     rule_rdr(S, la)
+    # the lock word itself: a stale or non-atomic update of the version word can re-set the lock bit after the
+    # owner released it (shared with C17)
+    from checks.C17 import rule_casl, rule_mx
+    rule_casl(S)
+    rule_mx(S)
